@@ -57,8 +57,8 @@ func Table(nconn int) script.Table {
 	return tb
 }
 
-func Run(c Case) core.Result {
-	res := core.Result{Labels: append([]string{fmt.Sprintf("connections=%d", c.NConn)}, c.Classes...)}
+func Run(c Case) (res core.Result) {
+	res = core.Result{Labels: append([]string{fmt.Sprintf("connections=%d", c.NConn)}, c.Classes...)}
 	for _, cl := range c.Classes {
 		switch cl {
 		case "reparse-before-execute", "rebind-portal", "close-then-use", "same-name-on-two-connections", "describe-after-reparse", "params-per-portal":
@@ -66,8 +66,14 @@ func Run(c Case) core.Result {
 		}
 	}
 	cfg := script.Config{Table: Table(c.NConn), SetLimit: true, Limit: 1 << 15}
+	mark := core.RaceMark()
 	env := script.Start(cfg)
 	defer env.Stop()
+	defer func() {
+		if res.Violation == "" && res.Inconclusive == "" {
+			res = core.RaceResult(res, "C07", core.RaceSince(mark))
+		}
+	}()
 	sess := make([]*script.Sess, c.NConn)
 	mds := make([]*model.Model, c.NConn)
 	next := make([]int, c.NConn)
